@@ -279,6 +279,7 @@ SELF_LINKS = [0]
 
 
 PERMUTED_KEYS = [0]
+HASH_TWINS = [0]
 ZERO_KEYS = [0]         # identifying integer / real attributes given the value zero
 
 
@@ -325,6 +326,24 @@ def resolved_population(rng, schema, max_inst=6, unset=True):
             if rows[i][k1] != rows[i][k2]:
                 PERMUTED_KEYS[0] += 1
                 rows[j][k1], rows[j][k2] = rows[i][k2], rows[i][k1]
+    # ... and now and then two referred rows carry key values that differ but have the same hash value (-1 / -2; values
+    # congruent modulo 2**61 - 1): equal hashes are not equal keys
+    twins = {'INTEGER': [(-1, -2), (1, 2 ** 61), (0, 2 ** 61 - 1), (12, 11 + 2 ** 61)],
+             'REAL': [(-1.0, -2.0), (1.0, 2.0 ** 61), (3.0, 2.0 ** 61 + 2.0 ** 10)],
+             'UNIQUE_ID': [(1, 2 ** 61), (7, 6 + 2 ** 61), (2 ** 61 - 1 + 2 ** 100 % (2 ** 61 - 1), 2 ** 100)]}
+    for r in schema.rops:
+        rows = pop.rows[r.tgt]
+        cand = [k for k in r.tgt_keys if types[(r.tgt, k)].upper() in twins and (r.tgt, k) not in referential]
+        if cand and len(r.tgt_keys) == 1 and len(rows) >= 2 and rng.random() < 0.3:
+            k = rng.choice(cand)
+            a, b = rng.choice(twins[types[(r.tgt, k)].upper()])
+            if hash(a) != hash(b) or a == b:
+                continue
+            i, j = rng.sample(range(len(rows)), 2)
+            if any(row[k] in (a, b) for row in rows):
+                continue
+            rows[i][k], rows[j][k] = a, b
+            HASH_TWINS[0] += 1
     links = {}
     # referential attributes that are themselves identifying further down need
     # their values first: process rops until a fixed point (bounded)
@@ -387,6 +406,12 @@ def hostile_population(rng, schema, max_inst=6):
     pools = {'BOOLEAN': [True, False], 'INTEGER': [0, 1, 2, -3, 2 ** 65],
              'REAL': [0.0, 0.5, 1.5, -2.25], 'STRING': ['', 'a', "b'c", 'a\nb'],
              'UNIQUE_ID': [0, 1, 2, 3, 2 ** 100]}
+    if rng.random() < 0.4:
+        # values that differ but have the same hash value
+        pools['INTEGER'] += [-1, -2]
+        pools['REAL'] += [-1.0, -2.0]
+        pools['UNIQUE_ID'] += [2 ** 61]
+        HASH_TWINS[0] += 1
     ident = key_roles(schema)
     referential = set((r.src, a) for r in schema.rops for a in r.src_keys)
     for kind, attrs in schema.classes:
